@@ -159,3 +159,15 @@ Definition decode_full (e : env) (c : config) (consider : uh_t -> bool) (data : 
   | Filtered | BadPH | BadUH => PSkip
   | Reject | OutOfFuel => PExc
   end.
+
+(* generatePH alone, as --bmc-id uses it: the BMC event log id, None when the header does not decode *)
+Definition decode_obmc (e : env) (data : bytes) : option N :=
+  match parse_header data with
+  | None => None
+  | Some ((id, len, h), rest) =>
+    if negb (id =? SectionID_privateHeader) then None else
+    match parse_ph_body len h rest with
+    | None => None
+    | Some (ph, _) => match render_ph e ph with Some _ => Some (ph_obmc ph) | None => None end
+    end
+  end.
